@@ -24,7 +24,7 @@ import sys
 import time
 
 VERIF = os.path.dirname(os.path.dirname(os.path.abspath(__file__)))
-REPO = os.environ.get("VERIF_REPO", "/repo")
+REPO = os.path.normpath(os.path.join(VERIF, "..", "repo"))  # /repo for /verif; a sibling clone for scratch copies
 BUILD = os.path.join(VERIF, "build")
 COQ = os.path.join(VERIF, "coq")
 GO = os.environ.get("VERIF_GO", "go1.26.8")
@@ -243,26 +243,33 @@ def build_driver(name, model_ml, extra=()):
         return rc == 0, exe, out
 
 
-def build_harness():
-    """go build -tags verif of /verif/harness against /repo's working tree."""
-    with Lock("harness"):
+def build_harness(cmd):
+    """go build -tags verif of /verif/harness/cmd/<cmd> against the sibling repo's working tree."""
+    with Lock("harness-" + cmd):
         hd = os.path.join(VERIF, "harness")
-        shutil.copyfile(os.path.join(REPO, "go.sum"), os.path.join(hd, "go.sum"))
-        exe = os.path.join(BUILD, "verifh")
-        rc, out = sh([GO, "build", "-tags", "verif", "-o", exe, "."], cwd=hd, env=GOENV, timeout=900)
+        with Lock("harness-gosum"):
+            src = open(os.path.join(REPO, "go.sum")).read()
+            write_if_changed(os.path.join(hd, "go.sum"), src)
+        os.makedirs(os.path.join(BUILD, "bin"), exist_ok=True)
+        exe = os.path.join(BUILD, "bin", cmd)
+        rc, out = sh([GO, "build", "-tags", "verif", "-o", exe, "./cmd/" + cmd], cwd=hd, env=GOENV, timeout=900)
         return rc == 0, exe, out
 
 
 # ------------------------------------------------------------------ known findings
 
 def known_findings():
-    p = os.path.join(VERIF, "known_findings.jsonl")
+    paths = [os.path.join(VERIF, "known_findings.jsonl")]
+    d = os.path.join(VERIF, "known_findings.d")
+    if os.path.isdir(d):
+        paths += [os.path.join(d, f) for f in sorted(os.listdir(d)) if f.endswith(".jsonl")]
     res = []
-    if os.path.exists(p):
-        for line in open(p):
-            line = line.strip()
-            if line and not line.startswith("#"):
-                res.append(json.loads(line))
+    for p in paths:
+        if os.path.exists(p):
+            for line in open(p):
+                line = line.strip()
+                if line and not line.startswith("#"):
+                    res.append(json.loads(line))
     return res
 
 
@@ -325,7 +332,7 @@ def run_pair(res, cfg, run, exe, tier, seed, replay_file=None):
     cmd = [exe, "-out", outdir, "-seed", str(seed), "-tier", tier]
     if replay_file:
         cmd += ["-replay", replay_file]
-    cmd += [run["harness"]]
+    cmd += run.get("harness_args", [])
     rc, out = sh(cmd, cwd=VERIF, env=GOENV, timeout=run.get("timeout", 3000))
     if rc != 0:
         return None, [], "harness %s failed (rc=%d): %s" % (run["harness"], rc, out[-2000:])
@@ -410,29 +417,29 @@ def standard_check(cfg, tier, seed, replay=None):
     axioms = sorted(set(v for v in pa.values() if v != "Closed under the global context"))
 
     # 3/4. correspondence -----------------------------------------------------------
-    okh, exe, hout = build_harness()
     stats_all = {}
     all_mism = []
     errors = []
-    if not okh:
-        errors.append("harness build failed (does /repo still compile with -tags verif?):\n" + hout[-3000:])
-    else:
-        for run in cfg.RUNS:
-            files = []
-            if replay:
-                files = [("replay", replay)]
-            else:
-                cf = corpus_file(pid, run["name"])
-                if cf:
-                    files.append(("corpus", cf))
-                files.append(("gen", None))
-            for kind, rf in files:
-                stats, mism, err = run_pair(res, cfg, run, exe, tier, seed, rf)
-                if err:
-                    errors.append("%s/%s: %s" % (run["name"], kind, err))
-                    continue
-                stats_all[run["name"] + "/" + kind] = stats
-                all_mism += [(run["name"],) + m for m in mism]
+    for run in cfg.RUNS:
+        okh, exe, hout = build_harness(run["harness"])
+        if not okh:
+            errors.append("harness build failed (does the repository still compile with -tags verif?):\n" + hout[-3000:])
+            continue
+        files = []
+        if replay:
+            files = [("replay", replay)]
+        else:
+            cf = corpus_file(pid, run["name"])
+            if cf:
+                files.append(("corpus", cf))
+            files.append(("gen", None))
+        for kind, rf in files:
+            stats, mism, err = run_pair(res, cfg, run, exe, tier, seed, rf)
+            if err:
+                errors.append("%s/%s: %s" % (run["name"], kind, err))
+                continue
+            stats_all[run["name"] + "/" + kind] = stats
+            all_mism += [(run["name"],) + m for m in mism]
 
     # 5. classify -----------------------------------------------------------------
     evaluations = sum(s["evaluations"] for s in stats_all.values())
